@@ -203,6 +203,19 @@ where
       return;
     }
 
+    // The event subscription only sees what is published after it was created. A context that
+    // began terminating before that (this session was accepted or connected at that very
+    // moment) is recognised by its flag, which is set before ContextTerminating is published.
+    if self
+      .actor_config
+      .context
+      .inner()
+      .shutdown_initiated
+      .load(std::sync::atomic::Ordering::Acquire)
+    {
+      self.transition_to_shutdown_stream(None).await;
+    }
+
     // ── HANDSHAKE LOOP ────────────────────────────────────────────────────────
     // Synchronous: drive the engine to ZmtpPhase::Data before processing any
     // commands. This preserves the old behaviour where ScaInitializePipes stays
